@@ -1002,6 +1002,37 @@ def provenance_follows_python_scoping():
     return bool(bad)
 
 
+def slice_bounds_evaluated_once():
+    """C01/C02: the bounds of a slice target are evaluated once and after the value (`x[lo():] = val()`), and an assignment expression in a
+    bound delivers one event."""
+    log = []
+
+    def lo():
+        log.append("lo")
+        return 1
+
+    def val():
+        log.append("val")
+        return [9]
+
+    def f(x):
+        x[lo():] = val()
+        return x
+
+    def g(x):
+        x[(a := 1):2] = [9]
+        return x
+
+    plain = (f([0, 1, 2]), list(log))
+    del log[:]
+    probed = (tooled(f)([0, 1, 2]), list(log))
+    with probing("g > a", env={"g": g}) as p:
+        seen = p["a"].accum()
+        g([0, 1, 2])
+    print("plain", plain, "instrumented", probed, "events for a", seen)
+    return plain != probed or seen != [1]
+
+
 # case -> properties (the scenario corpus of DESIGN 2.6: every case is replayed natively by the quick check of its properties)
 CASES = {
     "tuple_unpack_generator": ["C01"], "tuple_unpack_dict": ["C01"], "starred_target": ["C01"], "subscript_index_twice": ["C01"],
@@ -1019,7 +1050,7 @@ CASES = {
     "completion_error_leaves_probe_active": ["C17", "C05"], "overlay_on_tooled_function_keeps_its_events": ["C05"], "deactivation_inside_a_call_is_undone_at_its_exit": ["C05"],
     "probe_activated_inside_a_call_is_dropped": ["C05"],
     "same_name_constrained_in_two_frames": ["C12"], "bound_method_subselector_drops_record": ["C07"],
-    "private_names_in_method": ["C01"], "match_statement_under_tooling": ["C01", "C10", "C02"], "provenance_follows_python_scoping": ["C10"], "augmented_attribute_store_is_a_binding": ["C04", "C02"],
+    "private_names_in_method": ["C01"], "slice_bounds_evaluated_once": ["C01", "C02"], "match_statement_under_tooling": ["C01", "C10", "C02"], "provenance_follows_python_scoping": ["C10"], "augmented_attribute_store_is_a_binding": ["C04", "C02"],
     "stale_generator_answer_is_not_remembered": ["C05", "C07", "C02", "C09"],
     "hidden_temporaries_keep_generator_alive": ["C09"], "same_name_at_two_placements": ["C14"],
 }
